@@ -147,7 +147,7 @@ port_st = st.text(
     alphabet=st.characters(min_codepoint=32, max_codepoint=0x2FFF, blacklist_categories=("Cs", "Cc", "Zl", "Zp", "Zs")) | st.just(" "),
     min_size=1, max_size=30,
 ).map(lambda s: s.strip()).filter(lambda s: s != "" and s == s.strip() and "\x85" not in s)
-port_st = st.one_of(st.sampled_from(["/dev/ttyUSB0", "COM3", "/dev/cu.usbmodem14101", "%(x)s", "${sys:x}", "a;b", "a #b", "[x]", "a=b", "x:y", '"q"', "é/ü"]), port_st)
+port_st = st.one_of(st.sampled_from(["/dev/ttyUSB0", "COM3", "com4", "Com12", "cOM7", "COM10", "com256", "\\\\.\\COM11", "/DEV/TTYusb0", "Tty.USBmodem1", "/dev/cu.usbmodem14101", "%(x)s", "${sys:x}", "a;b", "a #b", "[x]", "a=b", "x:y", '"q"', "é/ü"]), port_st)
 libname_st = st.one_of(
     st.sampled_from(["Servo", "LiquidCrystal", "LiquidCrystal_I2C", "Wire", "adafruit/DHT sensor library@^1.4", "bblanchon/ArduinoJson @ ~6.21", "x=1", "a%b", "Lib;1", "a#b"]),
     st.text(alphabet="ABCabc019_-./@^~=<> %", min_size=1, max_size=16).map(lambda s: s.strip()).filter(lambda s: s and s[0] not in "=:"),
